@@ -24,6 +24,8 @@ pub struct Opts {
     pub export_variables: Option<bool>,
     pub capitalize: Option<bool>,
     pub suffixes: BTreeMap<&'static str, String>,
+    /// custom scalars of the schema (the CLI's schema printer needs a TypeScript type for each)
+    pub scalars: Vec<String>,
 }
 
 pub fn gen_opts(ch: &mut Choices) -> Opts {
@@ -87,6 +89,10 @@ pub fn config_text(o: &Opts, as_json: bool) -> String {
     }
     if !name.is_empty() {
         generate.insert("name".into(), name.into());
+    }
+    if !o.scalars.is_empty() {
+        let m: serde_json::Map<String, serde_json::Value> = o.scalars.iter().map(|n| (n.clone(), json!("string"))).collect();
+        generate.insert("type".into(), json!({"scalarTypes": m}));
     }
     let cfg = json!({"schema": "./schema.graphqls", "documents": "./**/*.graphql", "extensions": {"nitrogql": {"generate": generate}}});
     if as_json {
@@ -175,6 +181,7 @@ fn case_fn_mode(case: &mut Case, c12_mode: bool) -> CaseResult {
     // lower-case some operation names so that capitalisation matters: the pools already mix
     let doc = gd.doc.clone();
     let mut opts = gen_opts(&mut case.ch);
+    opts.scalars = gs.schema.of_kind(Kind::Scalar).iter().map(|t| t.name.clone()).collect();
     // precondition: every constant has a non-empty name. An anonymous operation is named by its
     // suffix alone, so an empty suffix is not a usable configuration for such a file.
     for d in &doc {
@@ -233,7 +240,9 @@ fn case_fn_mode(case: &mut Case, c12_mode: bool) -> CaseResult {
         static BASE: std::sync::OnceLock<PathBuf> = std::sync::OnceLock::new();
         let base = BASE.get_or_init(|| vh::runner::work_dir("c14"));
         let proj = Project::new(base);
-        let other = config_text(&gen_opts(&mut case.ch), false);
+        let mut other_opts = gen_opts(&mut case.ch);
+        other_opts.scalars = opts.scalars.clone();
+        let other = config_text(&other_opts, false);
         proj.write("schema.graphqls", &schema_text);
         for f in &files {
             proj.write(f.0.trim_start_matches("/p/"), &f.2);
